@@ -201,6 +201,37 @@ Theorem chain_entered_with_trace (hops : list hop) (i : thdrs) (t p : bytes) :
 Proof. exact (thm_chain_entered_with_trace hops i t p). Qed.
 Print Assumptions chain_entered_with_trace.
 
+(* ---------------- middleware stacks ---------------- *)
+
+(* A layer that derives its context from the incoming one (the Log middlewares,
+   Debug, PopulateRequestContext, RequestContextKeyVals, grpc StreamCanceler with
+   ctx' = with_cancel ctx) can be inserted anywhere in a stack — outermost, between
+   request-id and trace, innermost — without changing what the handler finds. *)
+Theorem stack_transparent (k : kind) (l1 l2 : list layer) (s : sstate) :
+  run_stack k (l1 ++ LTransparent :: l2) s = run_stack k (l1 ++ l2) s.
+Proof. exact (thm_stack_transparent k l1 l2 s). Qed.
+Print Assumptions stack_transparent.
+
+(* once a request-id layer has run, every handler below it finds a non-empty id,
+   whatever layers follow *)
+Theorem stack_request_id_survives (k : kind) (l1 : list layer) (xs : list rid_opt) (fresh : bytes) (l2 : list layer) (s : sstate) :
+  Forall (fun l => match l with LRid _ f => f <> [] | _ => True end) (l1 ++ LRid xs fresh :: l2) ->
+  exists id, s_rid (run_stack k (l1 ++ LRid xs fresh :: l2) s) = Some id /\ id <> [].
+Proof. exact (thm_stack_request_id_survives k l1 xs fresh l2 s). Qed.
+Print Assumptions stack_request_id_survives.
+
+(* a request that arrived with a trace id: below the trace layer, through any
+   further non-trace layers, the handler runs under that trace and the fresh span,
+   and a traced client called from the handler forwards exactly them *)
+Theorem stack_trace_survives (k : kind) (l1 : list layer) (xs : list trace_opt) (q : treq) (l2 : list layer) (s : sstate) (t : bytes) :
+  first_value (q_trace q) = t -> t <> [] ->
+  forallb (fun l => negb (is_trace_layer l)) l2 = true ->
+  let c := s_tctx (run_stack k (l1 ++ LTrace xs q :: l2) s) in
+  c_trace c = Some t /\ c_span c = Some (q_newspan q) /\
+  client_forward c ([], []) = Some ([t], [q_newspan q]).
+Proof. exact (thm_stack_trace_survives k l1 xs q l2 s t). Qed.
+Print Assumptions stack_trace_survives.
+
 (* ---------------- response capture ---------------- *)
 
 (* byte count: over ALL writer histories the capture's ContentLength is the sum of
@@ -211,7 +242,8 @@ Proof. exact (thm_capture_reports_bytes_written h). Qed.
 Print Assumptions capture_reports_bytes_written.
 
 (* status and byte count: over ALL writer histories (any interleaving of
-   WriteHeader, Write and Flush, repeated and late WriteHeader calls included,
+   WriteHeader, Write, Flush, io.Copy, io.WriteString and ResponseController
+   flushes, repeated and late WriteHeader calls included,
    any sizes, any final status codes) the capture reports exactly what the writer
    underneath sent: the status committed by the first event — the implicit 200
    when that event is a Write or a Flush — "nothing" for the empty history, and
@@ -257,5 +289,7 @@ Example capture_example :
   cap_status (capture [WriteHeader 201; WriteHeader 500]) = 201%Z /\
   cap_status (capture [Flush; WriteHeader 500]) = 200%Z /\
   cap_status (capture [WriteHeader 103; WriteHeader 204]) = 204%Z /\
+  capture [Copy 5] = {| cap_status := 200; cap_bytes := 5 |} /\
+  capture [CtlFlush; WriteString 2; WriteHeader 404] = {| cap_status := 200; cap_bytes := 2 |} /\
   cap_status (capture []) = 0%Z.
 Proof. vm_compute. repeat split. Qed.
